@@ -307,6 +307,12 @@ def Mod(a, b):
 def Lt(a, b):
     if a.op == "int" and b.op == "int":
         return Bool(a.val < b.val)
+    if a is b:
+        return FALSE
+    if a.op in ("seq.len", "str.len") and b.op == "int" and b.val <= 0:
+        return FALSE            # lengths are never negative
+    if b.op in ("seq.len", "str.len") and a.op == "int" and a.val < 0:
+        return TRUE
     return T("<", (a, b), BOOL)
 
 
@@ -315,6 +321,10 @@ def Le(a, b):
         return Bool(a.val <= b.val)
     if a is b:
         return TRUE
+    if b.op in ("seq.len", "str.len") and a.op == "int" and a.val <= 0:
+        return TRUE             # lengths are never negative
+    if a.op in ("seq.len", "str.len") and b.op == "int" and b.val < 0:
+        return FALSE
     return T("<=", (a, b), BOOL)
 
 
@@ -405,7 +415,12 @@ def seq_literal_elems(t):
     return None
 
 
+LEN_ALIAS = {}      # fresh sequence constant -> its length term (fixed when the constant was introduced)
+
+
 def Len(s):
+    if s in LEN_ALIAS:
+        return LEN_ALIAS[s]
     if s.op == "str":
         return Int(len(s.val))
     if s.op == "seq.empty":
